@@ -172,7 +172,8 @@ func runGob(w *tr.W, d *dawg.Dawg, in dawgIn) {
 	var e1, e2, e3, e4 error
 	d2 := new(dawg.Dawg)
 	d3 := new(dawg.Dawg)
-	nodes2, nodes3 := []nodeJ{}, []nodeJ{}
+	nodes2, nodes3, nodes4 := []nodeJ{}, []nodeJ{}, []nodeJ{}
+	var e5 error
 	nw2 := 0
 	lookups := []tr.E{}
 	res := obs.Safe(func() {
@@ -195,6 +196,12 @@ func runGob(w *tr.W, d *dawg.Dawg, in dawgIn) {
 		if e4 == nil {
 			nodes3 = nodeTable(d3)
 		}
+		// decode into a receiver that already holds another automaton (with the empty word): GobDecode replaces its contents
+		d4, _ := dawg.New([][]byte{{}, {120}, {120, 121}})
+		e5 = d4.GobDecode(append([]byte{}, b1...))
+		if e5 == nil {
+			nodes4 = nodeTable(d4)
+		}
 		for _, p := range in.Probes {
 			id, ok := d2.Lookup(i2b(p))
 			lookups = append(lookups, tr.E{"w": p, "id": id, "ok": ok})
@@ -211,7 +218,7 @@ func runGob(w *tr.W, d *dawg.Dawg, in dawgIn) {
 		bytesOut = []int{}
 	}
 	w.Emit(tr.E{"ev": "Gob", "res": res, "b1": bytesOut, "b1len": len(b1), "enc_err": errs(e1), "dec_err": errs(e2), "enc2_err": errs(e3), "gob_err": errs(e4),
-		"same_bytes": bytes.Equal(b1, b2), "nodes2": nodes2, "nodes3": nodes3, "nwords2": nw2, "lookups2": lookups, "nodes1": nodeTable(d)})
+		"same_bytes": bytes.Equal(b1, b2), "nodes2": nodes2, "nodes3": nodes3, "nwords2": nw2, "lookups2": lookups, "nodes1": nodeTable(d), "nodes4": nodes4, "dec4_err": errs(e5)})
 }
 
 // ---- word set families ----
@@ -332,7 +339,27 @@ func dawgFamilies(c *Ctx, prop string) []dawgIn {
 	add(dawgIn{Name: "emptyword-nil", Adds: [][]int{{}}, NilEmpty: true, Probes: probesFor(ab, 2), Table: true, Gob: true})
 	add(dawgIn{Name: "emptyword-nil-twice", Adds: [][]int{{}, {}}, NilEmpty: true, Probes: probesFor(ab, 2), Table: true})
 	add(dawgIn{Name: "emptyword-twice", Adds: [][]int{{}, {}, {97}, {}}, Probes: probesFor(ab, 2), Table: true})
-	// every subset of {a,b}^<=2 with the empty word, as lists with rejected adds
+	// EVERY sequence of Adds (sorted or not: runs of rejected adds) of length <= 4 (5 thorough) over {a,b}^<=2
+	{
+		univ := allWords(ab, 2)
+		maxK := 4
+		if big {
+			maxK = 5
+		}
+		var rec func(seq [][]int)
+		rec = func(seq [][]int) {
+			if len(seq) >= 2 {
+				add(dawgIn{Name: "addseq", Adds: append([][]int{}, seq...), Probes: probesFor(ab, 3), Table: true})
+			}
+			if len(seq) == maxK {
+				return
+			}
+			for _, w := range univ {
+				rec(append(seq, w))
+			}
+		}
+		rec(nil)
+	}
 	n1, n2 := 150, 150
 	if big {
 		n1, n2 = 1500, 1500
